@@ -220,6 +220,10 @@ func checkC02(P *Prog, r *Result) {
 	// no spurious issue: a typed nil record is an empty record (each required field reports), not one coerce
 	// issue at the struct node that hides them (C04's nil-record rule)
 	shareRule(P, r, checkC04, "C04/nil-record-absent", nil, "C02/nil-record-not-a-coerce-issue", 1)
+	// the tests a schema runs are the ones declared on it: a derived schema whose tests slice shares spare capacity with
+	// its operand has the test it took from one Merge overwritten by the next, and then reports a foreign code and
+	// misses its own violation (C16's rule)
+	shareRule(P, r, checkC16, "C16/no-shared-backing", nil, "C02/tests-as-declared", 4)
 	// ---- nil-iff-empty ----
 	P.checkNilIffEmpty(r)
 	// ---- a failure is never swallowed by a flag left behind, nor suppressed by an unrelated earlier issue ----
